@@ -64,8 +64,10 @@ def verify(src, pid, name):
         with_patch = sh(cmd, cwd=wt).stdout
         fails_with = "FAIL" in with_patch or "panic:" in with_patch
         sh("git apply -R %s" % "/dev/stdin", cwd=wt) if False else None
-        open("/tmp/_rebased.diff", "w").write(rebased)
-        sh("git apply -R /tmp/_rebased.diff", cwd=wt, check=True)
+        rb = "/tmp/_rebased_%s_%s.diff" % (pid, name)
+        open(rb, "w").write(rebased)
+        sh("git apply -R %s" % rb, cwd=wt, check=True)
+        os.remove(rb)
         without = sh(cmd, cwd=wt).stdout
         passes_without = "FAIL" not in without and "panic:" not in without and "ok" in without
         print("demo with patch: %s; without: %s" % ("FAILS" if fails_with else "passes(!)", "passes" if passes_without else "FAILS(!)"))
